@@ -93,6 +93,8 @@ package scion
 //@   modifies *s
 //@   ensures (result == nil) == (len(data) >= 4 && shapeOK(l0, l1, l2) && len(data) >= n)
 //@   ensures result == nil ==> rawInv(s) && s.Raw == data[:n]
+//@   # the clause the path.Path.DecodeFromBytes interface contract (pkg/slayers) promises for this implementation
+//@   ensures result == nil ==> len(s.Raw) <= len(data) && s.Raw == data[:len(s.Raw)]
 //@   ensures result == nil ==> s.PathMeta.CurrINF == data[0]>>6 && s.PathMeta.CurrHF == data[0]&0x3f && s.PathMeta.SegLen[0] == l0 && s.PathMeta.SegLen[1] == l1 && s.PathMeta.SegLen[2] == l2
 
 //@ func (*Raw).GetInfoField
@@ -173,3 +175,8 @@ package scion
 //@   requires s.PathMeta.SegLen[0] <= 63 && s.PathMeta.SegLen[1] <= 63
 //@   modifies nothing
 //@   ensures result == (s.PathMeta.CurrINF == segOf(s.PathMeta.CurrHF, s.PathMeta.SegLen[0], s.PathMeta.SegLen[1]))
+
+//@ func (*Decoded).DecodeFromBytes
+//@   props C08 C18
+//@   loop 1 invariant 0 <= rangeint_iter && rangeint_iter < s.NumINF && offset == 4+rangeint_iter*8 && len(s.InfoFields) == s.NumINF && 0 <= s.NumINF && s.NumINF <= 3 && 0 <= s.NumHops && s.NumHops <= 64 && len(data) >= 4+s.NumINF*8+s.NumHops*12
+//@   loop 2 invariant 0 <= rangeint_iter && rangeint_iter < s.NumHops && offset == 4+s.NumINF*8+rangeint_iter*12 && len(s.HopFields) == s.NumHops && 0 <= s.NumINF && s.NumINF <= 3 && 0 <= s.NumHops && s.NumHops <= 64 && len(data) >= 4+s.NumINF*8+s.NumHops*12
